@@ -42,3 +42,48 @@ def render (r : Nat × List (Str × Str)) : String :=
   s!"{r.1}:" ++ String.intercalate "," (body.map fun kv => toHex kv.1 ++ "=" ++ toHex kv.2)
 
 end AM.Health
+
+/-! ### `WaitForReady`
+
+The waiter Go routine: a `select` between the context's `Done` channel and a ticker; on a tick it asks
+`IsReady` and closes the returned channel if every component is ready; on `Done` it SENDS the context's error
+on the (unbuffered) channel — a blocking send, so the error waits for the caller however late the caller looks.
+Registrations and ready-marks by other Go routines happen in between. -/
+namespace AM.Health
+
+inductive WRes where
+  | closed    -- the channel was closed: "ready"
+  | ctxErr    -- the context's error was handed to the caller
+  deriving DecidableEq, Repr
+
+inductive WIn where
+  | op (o : Op)     -- another Go routine registers a component / marks one ready
+  | tick            -- the ticker fires and the waiter takes that arm
+  | cancel          -- the context is cancelled
+  | ctxArm          -- the waiter takes the `ctx.Done()` arm (possible only once cancelled)
+  deriving DecidableEq, Repr
+
+structure WSt where
+  m : M := []
+  cancelled : Bool := false
+  res : Option WRes := none
+  deriving Repr
+
+def wstep (st : WSt) : WIn → WSt
+  | .op o => { st with m := apply st.m o }
+  | .cancel => { st with cancelled := true }
+  | .tick => if st.res.isNone && isReady st.m then { st with res := some .closed } else st
+  | .ctxArm => if st.res.isNone && st.cancelled then { st with res := some .ctxErr } else st
+
+def wrun (st : WSt) (ins : List WIn) : WSt := ins.foldl wstep st
+
+/-- the tempting "leak fix" (the error is offered for one tick only, then the channel is closed): after the
+`ctx.Done()` arm a tick without a receiver closes the channel — the caller reads "ready" -/
+def wstepBounded (st : WSt) : WIn → WSt
+  | .op o => { st with m := apply st.m o }
+  | .cancel => { st with cancelled := true }
+  | .tick => if st.res = some .ctxErr then { st with res := some .closed }
+             else if st.res.isNone && isReady st.m then { st with res := some .closed } else st
+  | .ctxArm => if st.res.isNone && st.cancelled then { st with res := some .ctxErr } else st
+
+end AM.Health
